@@ -155,6 +155,18 @@ GEN_BASELINE = os.path.join(COQ, "gen_baseline")
 def regen_all():
     """-> {target: 'unchanged' | 'regenerated' | 'rejected: <why>'}"""
     import importlib
+    # the translators read the source of the tree under test: /repo (or CLOUDSYNC_REPO), never the copy of the
+    # package that is installed in the interpreter's site-packages (./check pins PYTHONPATH; setup_cmd does not)
+    repo = os.environ.get("CLOUDSYNC_REPO") or "/repo"
+    for pth in (VERIF, repo):
+        if pth not in sys.path:
+            sys.path.insert(0, pth)
+    if repo in sys.path and sys.path.index(repo) > 0:
+        sys.path.remove(repo)
+        sys.path.insert(0, repo)
+    mod_cs = sys.modules.get("cloudsync")
+    if mod_cs is not None and not os.path.abspath(getattr(mod_cs, "__file__", "")).startswith(os.path.abspath(repo) + os.sep):
+        raise BuildError("cloudsync was imported from %s, not from %s" % (getattr(mod_cs, "__file__", "?"), repo))
     out = {}
     for target, modname, fn in GENERATED:
         path = os.path.join(THEORIES, target)
